@@ -1157,6 +1157,48 @@ def gen_repeated_chains():
     return out
 
 
+def gen_nested_powers():
+    """power of a power, root of a power, power of a root: (a^b)^c is NOT a^(b*c) for a negative a with an even b and
+    a fractional c -- power(power(x,2),0.5) is |x|.  Inner forms with a non-negative value x outer exponents, at
+    negative and positive identifier values (full grid: every tree has at most two identifiers)"""
+    out = []
+
+    def add(t):
+        out.append({'kind': 'nested-power', 'tree': t})
+    x, y = ci('x'), ci('y')
+    inners = [
+        lambda: ap('power', x, cn('2')), lambda: ap('power', x, cn('4')), lambda: ap('power', x, cn('2.0')),
+        lambda: ap('power', x, cn_e('2', '0')), lambda: ap('times', x, x), lambda: ap('power', ap('minus', x), cn('2')),
+        lambda: ap('power', ap('plus', x, y), cn('2')), lambda: ap('power', ap('times', cn('2'), x), cn('4')),
+        lambda: ap('power', ap('power', x, cn('2')), cn('2')), lambda: ap('power', x, cn('6')),
+        lambda: ap('root', E('degree', [cn('3')]), ap('power', x, cn('2'))),
+        lambda: ap('root', ap('power', x, cn('2'))),
+        lambda: ap('abs', x),
+    ]
+    exps = ['0.5', '0.25', '1.5', '0.3333333333333333', '0.75', '2.5', '-0.5', '1', '2', '3', '0.5e0']
+    degs = ['2', '3', '4', '0.5', '1.5', '6']
+    for mk in inners:
+        for e in exps:
+            add(ap('power', mk(), cn(e)))
+        add(ap('power', mk(), cn_e('5', '-1')))
+        add(ap('power', mk(), ap('divide', cn('1'), cn('2'))))
+        add(ap('power', mk(), ap('divide', cn('1'), cn('3'))))
+        add(ap('power', mk(), ap('divide', y, cn('2'))))
+        add(ap('root', mk()))
+        for d in degs:
+            add(ap('root', E('degree', [cn(d)]), mk()))
+            add(ap('power', ap('root', E('degree', [cn(d)]), mk()), cn('1.5')))
+        add(ap('power', ap('root', mk()), cn('3')))
+        add(ap('power', ap('root', mk()), cn('0.5')))
+        add(ap('power', ap('power', mk(), cn('0.5')), cn('0.5')))
+        add(ap('power', ap('power', mk(), cn('0.5')), cn('2')))
+        add(ap('plus', ap('power', mk(), cn('0.5')), y))
+        add(ap('divide', y, ap('power', mk(), cn('0.5'))))
+        add(ap('lt', ap('power', mk(), cn('0.5')), y))
+        add(E('piecewise', [E('piece', [ap('power', mk(), cn('0.5')), ap('lt', x, cn('0'))]), E('otherwise', [x])]))
+    return out
+
+
 def gen_constants():
     """the constants as values and as operands (strict: where the extended reals give a value, the implementation's
     expression must have that value; an expression over <notanumber/> must not silently be a finite number)"""
@@ -1393,7 +1435,7 @@ def nowhere_defined(tree):
 
 def exhaustive_cases():
     return (gen_tag_arity() + gen_qualifiers() + gen_numbers() + gen_special_operands() + gen_constants()
-            + gen_repeated_chains())
+            + gen_repeated_chains() + gen_nested_powers())
 
 
 def run(ctx):
